@@ -41,4 +41,6 @@ CASES = [
     dict(expect="fire", desc="seed C06-r2/1: scan keeps its accumulator in the operator closure (defer dropped)", names="E1-no-early-state", edits=[dict(file="reactivex/operators/_scan.py",
          old="    def factory(scheduler: abc.SchedulerBase) -> Observable[_TState]:\n        has_accumulation = False\n        accumulation: _TState = cast(_TState, None)\n",
          new="    has_accumulation = False\n    accumulation: _TState = cast(_TState, None)\n\n    def factory(scheduler: abc.SchedulerBase) -> Observable[_TState]:\n")]),
+    dict(expect="fire", desc="seed C04-r3/3: infinite() returns a one-shot itertools.count()", names="E1-no-early-state", edits=[dict(file="reactivex/internal/utils.py",
+         old="def infinite() -> Iterable[int]:\n    return _Infinite()", new="def infinite() -> Iterable[int]:\n    import itertools\n    return itertools.count()")]),
 ]
